@@ -70,7 +70,8 @@ func genKeyShape(t *rapid.T, alpha []byte, minN, maxN, maxLen, maxOps int, allow
 	return keyShape{Keys: genKeys(alpha, minN, maxN, maxLen).Draw(t, "keys"), MaxOps: maxOps, Kind: "small"}
 }
 
-var fixedValues = []string{"", "|", "a|b", "\x80", "v", "vv", "a", "b|c", "\x00", "0", "1|a"}
+var fixedValues = []string{"", "|", "a|b", "\x80", "v", "vv", "a", "b|c", "\x00", "0", "1|a",
+	"\x00\x00\x00\x00\x00\x00\x00\x00a\x00\x00\x00\x00b", "z\x00\x00\x00\x00\x00\x01\x02\x03"}
 
 func genValue() *rapid.Generator[string] {
 	return rapid.OneOf(
